@@ -33,6 +33,10 @@ def parseSegs (s : String) : Option (List Nat) :=
       | _ => none
   (go (s.splitOn ",") #[]).map (·.toList)
 
+def insertNat (x : Nat) : List Nat → List Nat
+  | [] => [x]
+  | y :: ys => if x ≤ y then x :: y :: ys else y :: insertNat x ys
+
 def parseOid (s : String) : Option (Option Nat) :=
   if s == "-" then some none else s.toNat?.map some
 
@@ -60,10 +64,34 @@ structure St where
 /-- answer `out`, flagged when the Spec evaluation (if enabled) disagrees -/
 def chk (ok : Bool) (out : String) : String := if ok then out else "spec-differs:" ++ out
 
-def St.valid (s : St) (n : Nat) : Bool :=
+/-- status byte of a node (the shim creates nodes as valid | dataStored | headerStored) -/
+def St.statusOf (s : St) (n : Nat) : Nat :=
   match s.status.find? (·.1 == n) with
-  | some (_, st) => st / Spec.STATUS_VALID % 2 == 1
-  | none => true
+  | some (_, st) => st
+  | none => Spec.STATUS_VALID + Spec.STATUS_DATA_STORED + Spec.STATUS_HEADER_STORED
+
+def St.valid (s : St) (n : Nat) : Bool := s.statusOf n / Spec.STATUS_VALID % 2 == 1
+
+/-- `InactiveTips` / `ChainTips` on the whole index (every node of the tree): nodes off the view
+    that are not the parent of another node off the view -/
+def inactiveTips (s : St) : List Nat :=
+  let nodes := List.range s.idx.size
+  let off := nodes.filter (fun n => !s.view.contains s.idx n)
+  off.filter (fun n => !(off.any (fun c => s.idx.parent c == some n)))
+
+def chainTipsT (s : St) : Option String :=
+  match s.view.tip with
+  | none => none
+  | some t =>
+    let one (n : Nat) : String :=
+      let st := s.statusOf n
+      let status := if s.view.contains s.idx n then 1
+        else if (st / Spec.STATUS_VALIDATE_FAILED % 2 == 1) || (st / Spec.STATUS_INVALID_ANCESTOR % 2 == 1) then 2
+        else if st % 2 == 1 then 3 else 0
+      let fork := match findFork s.idx s.view (some n) with | some f => s.idx.height f | none => 0
+      s!"{n}.{status}.{s.idx.height n - fork}"
+    let all := (inactiveTips s ++ [t]).foldr (fun x acc => insertNat x acc) []
+    some (",".intercalate (all.map one))
 
 /-- one query token; `none` = malformed -/
 def op (s : St) (tok : String) : Option (St × String) :=
@@ -154,7 +182,35 @@ def op (s : St) (tok : String) : Option (St × String) :=
       let e ← stop.toNat?
       let mx ← mx.toInt?
       pure (s, res (heightToHashRange idx s.valid st e mx))
+    else if kind == "stf" then do
+      let n ← loc.toNat? >>= inIdx
+      let a ← stop.toNat?
+      let b ← mx.toNat?
+      let st := ((s.statusOf n ||| a) % 256) &&& (255 - (b % 256))
+      pure ({ s with status := (n, st) :: s.status }, toString st)
     else none
+  | ["lh", loc, stop] => do
+    let loc ← parseLoc loc
+    let stop ← stop.toNat?
+    match locateBlocks idx v loc stop Spec.MAX_HEADERS_PER_MSG with
+    | none => pure (s, "panic")
+    | some l => pure (s, ids l)
+  | ["eq", o] => do
+    let o ← parseOid o
+    let v2 := setTip idx [] o
+    let r := b01 (v.length == v2.length && v.tip == v2.tip)
+    pure (s, r ++ r)
+  | ["itips"] =>
+    -- InactiveTips dereferences the parent of every off-view node: the root off the view panics
+    if v.isEmpty then some (s, "panic") else some (s, ids (inactiveTips s))
+  | ["tips"] => some (s, match chainTipsT s with | some x => x | none => "panic")
+  | ["nd", n] => do
+    let n ← n.toNat? >>= inIdx
+    pure (s, s!"{pid (idx.parent n)}/{idx.height n}/1")
+  | ["hdrof", n] => do
+    let n ← n.toNat?
+    if n < idx.size then pure (s, match idx.parent n with | some p => toString p | none => "z")
+    else pure (s, "err")
   | ["rng", a, b] => do
     let a ← a.toInt?
     let b ← b.toInt?
@@ -280,7 +336,12 @@ def runHF (ps : List Nat) (bad : List Nat) (ops : List (Option HF.Op)) : String 
   "|".intercalate (outs ++ [s!"hdrs={".".intercalate hdrs}", s!"hloc={".".intercalate hloc}",
     s!"blocksonly={bo}@{depth bo}"] ++ (if c02ok then [] else ["c02-differs"]))
 
-def handle : List String → String
+def splitOn2 (toks : List String) : List (List String) :=
+  let (cur, acc) := toks.foldl (fun (st : List String × List (List String)) t =>
+    if t == ";;" then ([], st.1.reverse :: st.2) else (t :: st.1, st.2)) ([], [])
+  (cur.reverse :: acc).reverse
+
+def handle1 : List String → String
   | ["gah", h] => match h.toNat? with
     | some h => s!"{invertLowestOne h}/{getAncestorHeight h}"
     | none => "bad-op"
@@ -300,5 +361,10 @@ def handle : List String → String
       | none => "bad-op"
     | _, _ => "bad-op"
   | _ => "bad-op"
+
+/-- `par a ;; b ;; …`: independent instances; every instance answers as it does alone -/
+def handle : List String → String
+  | "par" :: rest => " ;; ".intercalate ((splitOn2 rest).map handle1)
+  | toks => handle1 toks
 
 end BV.C17.Driver
